@@ -179,7 +179,7 @@ def _builtin(s, ctx, func, g, tc, A, caller, ln, last):
         return deref_all(A[0]) if last != 'must_use' else A[0]
     if tc and tc[1] == 'From' and tc[0] == 'String' and tc[2] == 'from': return deref_all(A[0])
     if tc and tc[1] in ('ToString', 'ToOwned', 'Into') and isinstance(deref_all(A[0]), Str): return deref_all(A[0])
-    if E('String::new'): return Str('')
+    if E('String::new') or E('String::with_capacity'): return Str('')
     if E('String::len') or E('str::len') or E('<impl str>::len'):
         v = deref_all(A[0])
         if isinstance(v.t, str): return len(v.t.encode())
@@ -402,6 +402,10 @@ def _builtin(s, ctx, func, g, tc, A, caller, ln, last):
         if op == 'get_key_value': return some(tup(Ref(SlotCell(m.items[i], 0)), Ref(SlotCell(m.items[i], 1))))
         if m.kind == 'HashSet': return some(Ref(SlotCell(m.items[i], 0)))
         return some(Ref(SlotCell(m.items[i], 1, 'mapval')))
+    if tc and tc[0] == 'HashMap' and tc[1].startswith('Index') and tc[2] in ('index', 'index_mut'):
+        m = deref_all(A[0]); i = _find(ctx, m, _key(A[1]))
+        if i == len(m.items): raise Panic('HashMap index: key not found', 'index')
+        return Ref(SlotCell(m.items[i], 1, 'mapval'))
     if E('HashMap::insert') or E('HashSet::insert'):
         m = deref_all(A[0]); k = A[1]; v = A[2] if len(A) > 2 else unit()
         i = _find(ctx, m, deref_all(k))
@@ -498,6 +502,13 @@ def _builtin(s, ctx, func, g, tc, A, caller, ln, last):
         return o if ctx.branch(r) else none()
     if E('Option::take'):
         r = A[0]; o = load(r); store(r, none()); return o
+    if E('Option::get_or_insert_with') or E('Option::get_or_insert') or E('Option::insert'):
+        r = A[0]; o = load(r)
+        if o.variant == 0 or E('Option::insert'):
+            v = (yield from s.call_callable(ctx, A[1], [])) if E('Option::get_or_insert_with') else A[1]
+            if o.variant == 1: s.drop_val(ctx, o.fields[0])
+            store(r, some(v))
+        return Ref(r.cell, r.path + (0,))
     if E('Option::is_some_and'):
         o = A[0]
         if o.variant == 0: return False
@@ -860,4 +871,6 @@ def _strlen(ctx, v):
     if not hasattr(ctx, '_strlen'): ctx._strlen = z3.Function('strlen', z3.IntSort(), z3.IntSort())
     if is_z3(v.t):
         n = ctx._strlen(v.t); ctx.add(z3.And(n >= 0, n < 2 ** 32)); return n
-    raise Unsupported('length of a structured string term')
+    if isinstance(v.t, str): return len(v.t.encode('utf-8'))
+    # a rendered / joined text: its length is some number (it only ever sizes a buffer; the text itself stays symbolic)
+    return ctx.fresh_int('strlen', 0, 2 ** 32)
